@@ -208,41 +208,20 @@ pub struct CheckResult {
 pub fn run_check(spec: &PropSpec, tier: &str, base_seed: u64, threads: usize) -> CheckResult {
     let t0 = Instant::now();
     let total_runs = if tier == "thorough" { spec.thorough_runs } else { spec.quick_runs };
-    let wall_limit = if tier == "thorough" { 1500.0 } else { 240.0 };
+    let wall_limit = if tier == "thorough" { 900.0 } else { 240.0 };
     let mut merged = BatchOut::default();
     let mut fam_runs: BTreeMap<&'static str, u64> = BTreeMap::new();
     for (fam, share) in &spec.families {
         let runs = (total_runs * u64::from(*share) / 100).max(1);
-        let o = run_batch(*fam, base_seed, 0, runs, threads, wall_limit, spec.nontrivial);
+        let o = match crate::batch::run_batch_auto(spec.id, *fam, base_seed, runs, threads, wall_limit, spec.nontrivial) {
+            Ok(o) => o,
+            Err(e) => {
+                println!("HARNESS-ERROR {e}");
+                return CheckResult { exit: 2 };
+            }
+        };
         *fam_runs.entry(fam.name()).or_insert(0) += o.evaluations;
-        merged.evaluations += o.evaluations;
-        merged.signatures.extend(o.signatures);
-        merged.nontrivial.extend(o.nontrivial);
-        for (k, n) in o.faults {
-            *merged.faults.entry(k).or_insert(0) += n;
-        }
-        for (k, n) in o.probes {
-            *merged.probes.entry(k).or_insert(0) += n;
-        }
-        for (k, n) in o.by_role {
-            *merged.by_role.entry(k).or_insert(0) += n;
-        }
-        merged.sim_ms += o.sim_ms;
-        merged.steps += o.steps;
-        merged.task_polls += o.task_polls;
-        for s in o.samples {
-            if merged.samples.len() < 3 {
-                merged.samples.push(s);
-            }
-        }
-        for (k, f) in o.found {
-            let e = merged.found.entry(k).or_default();
-            if e.example.is_none() {
-                *e = f;
-            } else {
-                e.count += f.count;
-            }
-        }
+        crate::batch::merge(&mut merged, o);
     }
 
     // triage
